@@ -22,6 +22,9 @@ pub const DENY: &[&str] = &[
     "append_file", "run_process", "time", "now", "sleep", "random", "random_bytes", "random_range",
     "shuffle", "choose", "request", "request_bytes", "request_json", "display", "console_log",
     "par_each", "par_map",
+    // print the Debug form of values, which includes process-global struct ids: their output would
+    // differ between a batch and its replay in a fresh process
+    "debug", "__internal_debug",
 ];
 
 /// (builtin, reason): combinations whose running time or memory grows with the *magnitude* of an
